@@ -86,7 +86,7 @@ def baseCat : Base → Cat
   | .void => .void
   | .nullptr => .nullPointer
   | .float | .double | .ldouble => .floatingPoint
-  | .enumU | .enumUF | .enumS | .enumSC => .enumeration
+  | .enumU | .enumUF | .enumS | .enumSC | .enumSS | .enumUS | .enumL | .enumULL => .enumeration
   | .cls => .class
   | .uni => .union
   | _ => .integral
@@ -152,7 +152,7 @@ def isUnboundedArray : CType → Bool
   | uarr _ => true
   | _ => false
 def isScopedEnum : CType → Bool
-  | base .enumS _ | base .enumSC _ => true
+  | base .enumS _ | base .enumSC _ | base .enumUS _ | base .enumL _ => true
   | _ => false
 
 def isSame (a b : CType) : Bool := decide (a = b)
@@ -234,10 +234,10 @@ def signedTypes : List (Base × Nat) := [(.schar, 1), (.short, 2), (.int, 4), (.
 def unsignedTypes : List (Base × Nat) := [(.uchar, 1), (.ushort, 2), (.uint, 4), (.ulong, 8), (.ullong, 8)]
 
 def sizeOfBase : Base → Nat
-  | .bool | .char | .schar | .uchar | .char8 | .enumSC => 1
-  | .short | .ushort | .char16 | .enumUF => 2
+  | .bool | .char | .schar | .uchar | .char8 | .enumSC | .enumSS => 1
+  | .short | .ushort | .char16 | .enumUF | .enumUS => 2
   | .int | .uint | .wchar | .char32 | .float | .enumU | .enumS => 4
-  | .long | .ulong | .llong | .ullong | .double => 8
+  | .long | .ulong | .llong | .ullong | .double | .enumL | .enumULL => 8
   | .ldouble => 16
   | _ => 0
 
@@ -276,6 +276,10 @@ def underlyingType : CType → Option (Option CType)
   | base .enumUF _ => some (some (base .short CV.none))
   | base .enumS _ => some (some (base .int CV.none))
   | base .enumSC _ => some (some (base .uchar CV.none))
+  | base .enumSS _ => some (some (base .schar CV.none))
+  | base .enumUS _ => some (some (base .ushort CV.none))
+  | base .enumL _ => some (some (base .long CV.none))
+  | base .enumULL _ => some (some (base .ullong CV.none))
   | _ => none
 
 end Tetl.C15.Spec
